@@ -141,7 +141,7 @@ pub open spec fn read_all_ok(p: Map<Seq<u8>, PairInfoRaw>, keys: Seq<Seq<u8>>, o
         /*[C14 decimals.only-owner]*/ r is Ok ==> is_owner(*old(deps.storage), info.sender.0@),
         /*[C14 decimals.reject-no-write]*/ !is_owner(*old(deps.storage), info.sender.0@) ==> r is Err && *final(deps.storage) == *old(deps.storage),
         /*[C17 decimals.query-updated]*/ r is Ok ==> final(deps.storage).allow@ == old(deps.storage).allow@.insert(str_bytes(denom@), decimals),
-        /*[C17 decimals.reaches-all]*/ r is Ok && registry_wf(old(deps.storage).pairs@) && old(deps.storage).allow@.dom().contains(str_bytes(denom@)) ==>
+        /*[C17,C10 decimals.reaches-all]*/ r is Ok && registry_wf(old(deps.storage).pairs@) && old(deps.storage).allow@.dom().contains(str_bytes(denom@)) ==>
             final(deps.storage).pairs@.dom() == old(deps.storage).pairs@.dom()
             && (forall|k: Seq<u8>| #[trigger] old(deps.storage).pairs@.dom().contains(k) ==> dec_updated(old(deps.storage).pairs@[k], denom@, decimals, final(deps.storage).pairs@[k])),
         /*[C17,C07 decimals.first-registration-touches-nothing]*/ r is Ok && !old(deps.storage).allow@.dom().contains(str_bytes(denom@)) ==>
@@ -161,11 +161,11 @@ pub open spec fn read_all_ok(p: Map<Seq<u8>, PairInfoRaw>, keys: Seq<Seq<u8>>, o
                 deps.storage.config == old(deps.storage).config, deps.storage.tmp == old(deps.storage).tmp,
                 deps.storage.allow@ == old(deps.storage).allow@.insert(str_bytes(denom@), decimals),
                 /*[C17 decimals.loop.dom]*/ wf ==> deps.storage.pairs@.dom() == p0.dom(),
-                /*[C17 decimals.loop.done]*/ wf ==> forall|j: int| 0 <= j < it.index@ ==> dec_updated(p0[#[trigger] keys[j]], denom@, decimals, deps.storage.pairs@[keys[j]]),
-                /*[C17,C07 decimals.loop.msg-count]*/ wf ==> messages@.len() == told.len(),
-                /*[C17,C07 decimals.loop.msg-content]*/ wf ==> forall|mi: int| 0 <= mi < told.len() ==> 0 <= #[trigger] told[mi] < it.index@ && touches(p0[keys[told[mi]]], denom@)
+                /*[C17,C10 decimals.loop.done]*/ wf ==> forall|j: int| 0 <= j < it.index@ ==> dec_updated(p0[#[trigger] keys[j]], denom@, decimals, deps.storage.pairs@[keys[j]]),
+                /*[C17,C07,C10 decimals.loop.msg-count]*/ wf ==> messages@.len() == told.len(),
+                /*[C17,C07,C10 decimals.loop.msg-content]*/ wf ==> forall|mi: int| 0 <= mi < told.len() ==> 0 <= #[trigger] told[mi] < it.index@ && touches(p0[keys[told[mi]]], denom@)
                     && upd_msg(human_of(p0[keys[told[mi]]].contract_addr.0@), denom@, deps.storage.pairs@[keys[told[mi]]].asset_decimals, messages@[mi]),
-                /*[C17 decimals.loop.msg-complete]*/ wf ==> forall|j: int| 0 <= j < it.index@ && touches(p0[#[trigger] keys[j]], denom@) ==> told.contains(j),
+                /*[C17,C10 decimals.loop.msg-complete]*/ wf ==> forall|j: int| 0 <= j < it.index@ && touches(p0[#[trigger] keys[j]], denom@) ==> told.contains(j),
                 /*[C17 decimals.loop.todo]*/ wf ==> forall|j: int| it.index@ <= j < pis0.len() ==> deps.storage.pairs@[#[trigger] keys[j]] == p0[keys[j]],
 //%%insert before #1 /\/\/ Get the pair key from the pair info/
                 broadcast use {axiom_string_eq_spec, axiom_string_obeys_eq, axiom_to_string_string, group_q_errors, axiom_string_ext, axiom_str_bytes_inj};
@@ -245,7 +245,7 @@ pub proof fn lemma_registry_wf_after_update(p: Map<Seq<u8>, PairInfoRaw>, q: Map
                 commission_rate: rate_or_default(commission_rate),
                 lp_token_info: LPTokenInfo { lp_token_name: lp_token_info.lp_token_name, lp_token_symbol: lp_token_info.lp_token_symbol, lp_token_decimals: lp_token_info.lp_token_decimals } })),
         /*[C17 fexec.decimals.query-updated]*/ msg matches ExecuteMsg::AddNativeTokenDecimals { denom, decimals } ==> r is Ok ==> final(deps.storage).allow@ == old(deps.storage).allow@.insert(str_bytes(denom@), decimals),
-        /*[C17 fexec.decimals.reaches-all]*/ msg matches ExecuteMsg::AddNativeTokenDecimals { denom, decimals } ==> (r is Ok && registry_wf(old(deps.storage).pairs@) && old(deps.storage).allow@.dom().contains(str_bytes(denom@)) ==>
+        /*[C17,C10 fexec.decimals.reaches-all]*/ msg matches ExecuteMsg::AddNativeTokenDecimals { denom, decimals } ==> (r is Ok && registry_wf(old(deps.storage).pairs@) && old(deps.storage).allow@.dom().contains(str_bytes(denom@)) ==>
             final(deps.storage).pairs@.dom() == old(deps.storage).pairs@.dom()
             && (forall|k: Seq<u8>| #[trigger] old(deps.storage).pairs@.dom().contains(k) ==> dec_updated(old(deps.storage).pairs@[k], denom@, decimals, final(deps.storage).pairs@[k]))),
         /*[C14,C07 fexec.migrate.message]*/ msg matches ExecuteMsg::MigratePair { contract, code_id } ==> r is Ok ==> r->Ok_0.msgs().len() == 1
